@@ -214,7 +214,7 @@ def c32(t):
     out = C.Outcome("C32", "model_checking", t, ["<ordinals::Rune as Display>::fmt", "<ordinals::Rune as FromStr>::from_str", "Rune::{is_reserved,reserved,commitment,RESERVED}"])
     out.assumptions = [E2_NOTE,
         "strings are explicit sequences of symbolic chars (any Unicode scalar) of a concrete length per query; String/Chars/write! are modelled as char lists",
-        "print->parse is decided only for names up to 7 letters: z3 and cvc5 do not finish the 128-bit base-26 identity for longer names; parse->value is decided for lengths 0..=29",
+        "print->parse is decided only for names up to 5 letters (n <= 12356629): z3 and cvc5 do not finish the 128-bit base-26 identity for longer names; parse->value is decided for lengths 0..=29",
         "that distinct names denote distinct integers (uniqueness of bijective base-26 numerals) is used only through print(parse(s)) == s for short names",
         "SpacedRune Display/FromStr (spacer bitmasks) is NOT decided: CBMC does not finish SpacedRune::from_str even for 7 chars and the path count of the MIR engine grows as 1.6^len"]
     run_e2(out, "C32", t)
@@ -279,7 +279,7 @@ def c09(t):
         "stated stubs: Runestone::decipher returns the scenario's artifact (C25 decides the real decipher); RuneUpdater::{unallocated,mint,etched,create_rune_entry} return the scenario's input balances / open-or-closed mint / etched id (they read redb tables and the node in the real struct); the balance table is a recorder; events are off (event_sender = None)",
         "std HashMap/Vec are list models; HashMap iteration order is insertion order in the model (the result is order-independent: sums per rune id)",
         "per-rune totals (inputs + mint + premine) are assumed to fit u128 (supply conservation, C08); ids obey the edict/mint validity rules decipher enforces (block 0 implies tx 0; edict outputs <= number of outputs; pointer < number of outputs)",
-        "scenario bounds: <= 3 outputs with arbitrary OP_RETURN flags, <= 2 input runes, <= 1 (quick) / 2 (thorough) edicts, optional mint / etching with premine / pointer; every id, amount and output index symbolic",
+        "scenario bounds: <= 4 outputs with arbitrary OP_RETURN flags, <= 2 input runes, <= 1 (quick) / 2 (thorough) edicts, optional mint / etching with premine / pointer; every id, amount and output index symbolic",
         "a counterexample is replayed natively by the test vreplay_runes (real function text, real Lot arithmetic and real encode_rune_balance; artifact planted through the Runestone shim)"]
     run_e2(out, "C09", t, timeout=7200)
     return out.finish()
